@@ -9,6 +9,7 @@ import Upnp.Proto
 import Upnp.Gen.C13Server
 import Upnp.Model.C13Consts
 import Upnp.Model.C13Run
+import Upnp.Model.C13Loop
 namespace Upnp.Drv.C13
 open Upnp Upnp.Proto Upnp.C13
 
@@ -160,7 +161,20 @@ def finish (st : St) : Bool × Bool × List String :=
       r1 ++ r2 ++ r3
     let n3 := cmpMsgs "alive" st.alives.toList (mcase.alives.map fun m => (m, notifyPacket cfg ntsAlive ⟨m.st, m.usn⟩))
     let n4 := cmpMsgs "bye" st.byes.toList (mcase.byebyes.map fun m => (m, notifyPacket cfg ntsByebye ⟨m.st, m.usn⟩))
-    let corrNotes := st.bad ++ n1 ++ n2 ++ n3 ++ n4
+    -- the event-loop state machine over the same history (receptions at their observed times)
+    let (evs, _) := st.searches.toList.foldl (fun (acc : List Ev × Int) rs =>
+        (acc.1 ++ [Ev.advance (rs.inp.time - acc.2).toNat, Ev.recv rs.inp.requester rs.inp.req rs.inp.sel], rs.inp.time))
+      (([] : List Ev), (0 : Int))
+    let loopS := runLoop k dev {} (evs ++ [Ev.advance (k.mxCap * 1000)])
+    let n5 := (st.searches.toList.zipIdx.filterMap fun (rs, idx) =>
+      let mine := (loopS.log.filter fun o => o.dest == rs.inp.requester).map fun o => (o.time, o.msg.st, o.msg.usn)
+      let impl := rs.sends.toList.map fun m => let o := toObs m; (o.time, o.st, o.usn)
+      let raisedM := loopS.raisedAt.contains rs.inp.time
+      if rs.raised.isSome then (if raisedM then none else some s!"loop search{idx}: impl raised, loop model did not")
+      else if mine == impl then none
+      else some s!"loop search{idx}: loop model sends {mine.length} datagram(s) at {repr (mine.map (·.1))}, impl {impl.length} at {repr (impl.map (·.1))}").take 2
+    let n6 := if loopS.timers.isEmpty then [] else ["loop: timers left after the flush"]
+    let corrNotes := st.bad ++ n1 ++ n2 ++ n3 ++ n4 ++ n5 ++ n6
     -- judge, on the implementation's observations only
     let icase : CaseObs :=
       { tree := dev, location := cfg.location, target := target,
